@@ -16,8 +16,13 @@ THEOREMS = [
     "Spowtd.recession_curve_shift",
     "Spowtd.rise_curve_shift",
 ]
-TRUSTED_BASE = TRUSTED
+TRUSTED_BASE = TRUSTED + [
+    "translator tools/gen_formulas.py: the arithmetic of the named source functions (an expression, or a whole body of assignments, "
+    "if and return) as Python's own `ast` parses it -> Lean terms over the carrier class in lean/FormulaTie/Gen*.lean; "
+    "that each is the model's definition is re-checked by `rfl` / a short unfolding on every run (lean/FormulaTie/*.lean)",
+]
 SQL_TIE = ('load', 'classify')
+FORMULA_TIE = ('Classify',)
 ASSUMPTIONS = ASSUME + [
     "the theorem classify_shift is true of the model because the model never forms epoch/3600; the weight is on the "
     "correspondence at many origins (bit-exact flags) and on the relational oracle, which compares two runs of the "
